@@ -78,6 +78,7 @@ class CompiledFunction:
     )  # Names declared with var by a program (exist, undefined, from its start)
     is_arrow: bool = False  # arrow function: `this` is the one of the enclosing code
     inferred_name: str = ""  # name of an anonymous function taken from its context
+    is_method: bool = False  # method, getter or setter: not a constructor
 
 
 @dataclass
@@ -1879,6 +1880,7 @@ class Compiler:
                 name, node.params, node.body, is_expression=True
             )
             func.inferred_name = inferred
+            func.is_method = node.is_method
             func_idx = len(self.functions)
             self.functions.append(func)
 
